@@ -69,6 +69,8 @@ def check(ctx):
     # the parent table of *that* level (shared with C01)
     from .C01 import check_backfill
     check_backfill(ctx)
+    from .C10 import check_node_identity
+    check_node_identity(ctx, ('taxonomy.taxonomy_tree', 'cli.from_specified_markers'), floor=1)
 
 
 def check_single_version(ctx):
